@@ -204,7 +204,7 @@ func apply(s *Schema, e Edit) (*Schema, Claim, error) {
 		n.WSs[e.WS].Tables = append(n.WSs[e.WS].Tables, Table{Name: e.New, Kind: e.TK, Fields: []Field{{N: "a", K: 3}, {N: "b", K: 8}}})
 		return n, compat, nil
 	case "add_pkg_table":
-		// a new type in a NEW package: "only appends new types" at schema level
+		// a new type in a NEW package: "only appends new types"; compatible under the table since 73ee9ff73
 		for _, p := range n.Pkgs {
 			if p == e.To {
 				return nil, none, errNA
@@ -212,7 +212,7 @@ func apply(s *Schema, e Edit) (*Schema, Claim, error) {
 		}
 		n.Pkgs = append(n.Pkgs, e.To)
 		n.WSs[e.WS].Tables = append(n.WSs[e.WS].Tables, Table{Pkg: e.To, Name: e.New, Kind: "cdoc", Fields: []Field{{N: "a", K: 3}}})
-		return n, Claim{Kind: "additive"}, nil
+		return n, compat, nil
 	case "table_kind":
 		// the same QName changes its kind (cdoc <-> wdoc ...): not in the property's catalogue, correspondence only
 		t := n.table(e.WS, e.Name)
